@@ -257,6 +257,9 @@ func (c *Ctx) execInstr(in ssa.Instruction, st *State) {
 						nv.F = append([]*Val{{K: VScalar, T: it, S: idx}}, v.F[1:]...)
 						c.set(x, &nv)
 						c.chanLinksUsed[fieldName(fa)+" <-> "+g] = true
+						// the poll itself is a rule event, "chanpoll(T.field)", whatever it
+						// answers; a0 is the object that owns the channel
+						c.applyChanRules("chanpoll", fieldName(fa), base, "true", st)
 						c.definesUsed["channel link: a non-blocking receive from "+fieldName(fa)+" succeeds iff "+g+"(owner)"] = true
 						return
 					}
